@@ -151,3 +151,61 @@ def num_thorough():
             seen.add(x)
             res.append(x)
     return tuple(res)
+
+
+# ------------------------------------------------------------------ the size axis
+# Small inputs carry most defects, but not those of code that treats long inputs differently (block-wise scans, bisection, one-digit
+# patterns, identity comparison of ints above CPython's small-int cache, chunked reads).  The size families below are enumerated
+# completely for each listed size; all positions are multiples of 0.25, so the exact oracles apply bit for bit.
+SIZES_QUICK = (10, 11, 16, 17, 33, 64, 257, 258)
+SIZES_THOROUGH = SIZES_QUICK + (12, 32, 65, 100, 128, 129, 300, 1000)
+
+
+def long_intervals(n, gapped=True, labels=None):
+    """n intervals: gapped -> (2i, 2i+1.5) with 0.5 s gaps; contiguous -> (i, i+1)"""
+    lab = (lambda i: "w%d" % i) if labels is None else (lambda i: labels[i % len(labels)])
+    if gapped:
+        return tuple((2.0 * i, 2.0 * i + 1.5, lab(i)) for i in range(n))
+    return tuple((1.0 * i, 1.0 * i + 1.0, lab(i)) for i in range(n))
+
+
+def long_points(n, labels=None):
+    lab = (lambda i: "p%d" % i) if labels is None else (lambda i: labels[i % len(labels)])
+    return tuple((1.0 * i + 0.5, lab(i)) for i in range(n))
+
+
+def probe_indices(n):
+    """entry indices at which a length-dependent shortcut would go wrong first: both ends, the bisection probes, block edges"""
+    idx = {0, 1, 8, 9, 10, 15, 16, n // 4, n // 2 - 1, n // 2, 3 * n // 4, n - 2, n - 1, 255, 256, 257}
+    return tuple(sorted(i for i in idx if 0 <= i < n))
+
+
+def size_cuts(entries, idx=None):
+    """times in / at / between the probed entries: just before the start (in the gap, if any), the start, inside, the end"""
+    n = len(entries)
+    out = set()
+    for i in (probe_indices(n) if idx is None else idx):
+        e = entries[i]
+        s, t = e[0], e[-2] if len(e) == 3 else e[0]
+        out.update((s - 0.25, s, s + 0.25, t))
+    return tuple(sorted(out))
+
+
+def size_windows(cuts, near=8, far=4):
+    """ordered pairs a < b of cut times: b among the next `near` cuts after a, or among the last `far` cuts (wide windows)"""
+    out = []
+    n = len(cuts)
+    for i, a in enumerate(cuts):
+        js = set(range(i + 1, min(n, i + 1 + near))) | set(range(max(i + 1, n - far), n))
+        for j in sorted(js):
+            out.append((a, cuts[j]))
+    return out
+
+
+def size_family(quick, kinds=("gapped", "contiguous")):
+    """(n, layout, entries) for every size of the tier"""
+    for n in (SIZES_QUICK if quick else SIZES_THOROUGH):
+        for k in kinds:
+            if n > 130 and k == "gapped" and quick:
+                continue
+            yield n, k, long_intervals(n, k == "gapped")
